@@ -55,6 +55,11 @@ def scenarios(thorough):
               ("overwrite_cas", entry, "content", "OLD", True, False, 0o644),
               ("newdir", entry, "content", "ABSENT", False, True, 0o644),
               ("readonly", entry, "content", "OLD", False, False, 0o444)]
+    # permission bits the process umask (set to 022 for every run) would clear from a NEW file, and execute bits: an existing file keeps them
+    for entry in ("tool", "api", "cli"):
+        s += [("groupwrite", entry, "content", "OLD", False, False, 0o664),
+              ("worldrw_exec_cas", entry, "content", "OLD", True, False, 0o777 if entry != "tool" else 0o666)]
+    s.append(("groupwrite_changes", "cli", "changes", "OLD", False, False, 0o660))
     s.append(("changes", "cli", "changes", "OLD", False, False, 0o644))
     # text that cannot be encoded (a lone surrogate): the call must fail cleanly - the failure is not an OSError
     s.append(("unencodable", "api", "content_surrogate", "OLD", False, False, 0o644))
@@ -162,6 +167,7 @@ def invoke(sc, sb):
 
 def run_once(sc, plan, new_text=None, fork=False):
     """One execution under a plan. Returns dict(events, status, hash, snap)."""
+    os.umask(0o022)
     sb = Sandbox(sc)
     try:
         if fork:
